@@ -248,8 +248,20 @@ def main():
     if missing:
         faults.append("obligations of the committed baseline were not generated: %s" % missing[:5])
     for u in r["undecided_functions"]:
-        # a function that was under contract on the reference tree and left the supported subset
-        pass
+        # a function that was under contract on the reference tree and left the verified subset: every obligation of the
+        # committed baseline on it "passed on the unchanged tree and now fails" -- reported once, with the engine's reason;
+        # a concrete failing input found by the bounded evaluation of the same contract is reported separately above
+        lost = [b for b in bl["clauses"] if b.startswith(u["function"] + "#")]
+        if not lost:
+            continue
+        os.makedirs(rdir, exist_ok=True)
+        path = os.path.join(rdir, sanitize(u["function"] + "_left_verified_subset") + ".json")
+        json.dump({"property": pid, "source": "prover", "obligation": lost[0], "function": u["function"],
+                   "lost_baseline_obligations": lost, "verifier_output": u.get("reason"), "witness": None},
+                  open(path, "w"), indent=1, default=str)
+        violations.append({"obligation": lost[0], "replay": path, "confirmed": False,
+                           "text": "%d obligation(s) discharged on the reference tree can no longer be generated: %s"
+                                   % (len(lost), u.get("reason"))})
     # bounded stand-in
     bounded = None
     if not a.no_bounded:
